@@ -19,7 +19,8 @@ PROP = {
     "assumptions": [
         "the counters are part of the LTS state (Hsms/Generations.v) and are updated at exactly the inc/dec call sites read from hsms/connection_metrics.go, connection_send.go, connection_runtime.go, connection_lifecycle.go; atomicity as listed in Generations.v",
         "per-outcome table = the table in Hsms/Metrics.v (read from the code and its comments): a synchronous data write error counts as an error also for a W-clear send (the doc comment of DataMsgErrCount is ambiguous on W-clear sends; code, in-code comments and connection_forward_test.go agree on counting it)",
-        "autoS9F9, session-id validation and decode-error handlers are off (defaults); decodeErr/bodyDecodeErr are not modelled",
+        "session-id validation and decode-error handlers are off (defaults); decodeErr/bodyDecodeErr are not modelled; autoS9F9 (on in the SECS-I equipment role used by pass 1) is an ordinary asynchronous data send entered by the environment after a T3 (logged as an anonymous wire event)",
+        "both transports: pass 0 HSMS-SS, pass 1 SECS-I over TCP (equipment role; no Reject/Deselect outcomes there; the peer counts a block as received only when its ACK got through)",
         "e2e: dataRecv is compared with the peers' count of completely written data frames only when every such frame shows evidence of dispatch (a reply result or a handler call); otherwise only the bounds evidence <= recv <= written are asserted and the history is not passed to the monitor (histogram bucket recv-unsettled)",
         "e2e: 'quiescent' = every call returned, the async sender flushed, the state reads Selected (or Close returned) and the reconnecting gauge was polled to zero within 5 s (the loop's deferred decrement runs just after the successful dial)",
     ],
